@@ -146,6 +146,12 @@ class MarkovChainMonteCarloRewiring(MarkovChainMonteCarlo):
             lst: list = hashmap_e1s[topology]
             for e1 in lst:
                 v1: int = self.get_other_vertex(v0, e1)
+                if u0 == v1 or v0 == u1:
+                    # the two corners share a vertex, the swap would create a self-loop
+                    self._logger.debug(
+                        "MarkovChainMonteCarlo - target edge would be a self-loop"
+                    )
+                    return False
                 if G.has_edge(u0, v1) or G.has_edge(v0, u1):
                     self._logger.debug(
                         "MarkovChainMonteCarlo - target edges already in network"
